@@ -228,3 +228,15 @@ def beyond_image(case, side="left"):
 def multiband_subpix_sadssd(case):
     """finding C02-F2"""
     return bool(case.get("bands")) and case["subpix"] > 1 and case["method"] in ("sad", "ssd")
+
+
+def fractional_radiometry(case):
+    """finding C02-F3: some pixel of the images is not an integer"""
+    def flat(x):
+        if isinstance(x, list):
+            for v in x:
+                yield from flat(v)
+        else:
+            yield x
+
+    return any(v != int(v) for im in (case["left_im"], case["right_im"]) for v in flat(im))
